@@ -314,6 +314,9 @@ class SMCSampler(MCMCSampler):
             last_beta = self.history.beta[-1] if self.history.beta else beta
             if last_beta >= 1.0:
                 run_smc_loop = False
+            elif max_n_steps is not None and iterations >= max_n_steps:
+                # The checkpointed run had already used up its step cap
+                run_smc_loop = False
 
         def maybe_checkpoint(force: bool = False):
             if checkpoint_callback is None:
